@@ -32,7 +32,7 @@ func init() {
 
 func runC04(c *Ctx) {
 	r := c.R
-	r.Rule("R04-single", "bestmove is sent only inside the completion function, after it won CompareAndSwap(true,false) on the active flag; the flag is armed only in the go arm, after the search was launched or right before the synchronous book completion", 3)
+	r.Rule("R04-single", "bestmove is sent only inside the completion function, after it won the compare-and-swap that clears the active flag (from true, or from its own search id); the flag is armed only in the go arm, after the search was launched or right before the synchronous book completion", 3)
 	r.Rule("R04-complete", "in every mode some party completes: the forwarder after the result channel closes unless infinite; the stop arm on the success path of Engine.Halt (belief rule: a value returned with an error is not used only where the error is non-nil)", 3)
 	r.Rule("R04-rootpv", "a root search returns an empty PV only through the mate/stalemate verdict: the early exits (drawn game, exact table hit) are taken only at non-root nodes; the public Search hands the root's PV through unchanged", 2)
 	r.Rule("R04-depth1", "Halt waits for the first completed iteration before it closes quit; the first-iteration signal is given only after the PV was stored (or on exit)", 2)
@@ -87,12 +87,8 @@ func c04Single(c *Ctx, d *driverModel) {
 	var cas ssa.Value
 	for _, b := range sc.Blocks {
 		for _, ins := range b.Instrs {
-			if call, ok := ins.(*ssa.Call); ok && call.Call.StaticCallee() != nil && call.Call.StaticCallee().String() == "(*sync/atomic.Bool).CompareAndSwap" {
-				a1, ok1 := constBoolArg(call.Call.Args[1])
-				a2, ok2 := constBoolArg(call.Call.Args[2])
-				if ok1 && ok2 && a1 && !a2 && strings.HasSuffix(pathExpr(call.Call.Args[0]), ".active") {
-					cas = call
-				}
+			if call, ok := ins.(*ssa.Call); ok && d.flagOp(call) == "win" {
+				cas = call
 			}
 		}
 	}
@@ -154,7 +150,7 @@ func c04Single(c *Ctx, d *driverModel) {
 			}
 		}
 	}
-	r.Check(cas != nil && guarded && len(elsewhere) == 0 && n >= 2, "R04-single", "bestmove is sent only after winning the active flag", c.pos(sc.Pos()), "", fmt.Sprintf("CAS(true,false) found=%v, all sends guarded=%v, sends outside the completion function: %v", cas != nil, guarded, elsewhere))
+	r.Check(cas != nil && guarded && len(elsewhere) == 0 && n >= 2, "R04-single", "bestmove is sent only after winning the active flag", c.pos(sc.Pos()), "", fmt.Sprintf("compare-and-swap to the cleared value found=%v, all sends guarded=%v, sends outside the completion function: %v", cas != nil, guarded, elsewhere))
 	r.Check(nullOK && firstOK, "R04-null", "null move iff the PV is empty", c.pos(sc.Pos()), "", fmt.Sprintf("'bestmove 0000' on the empty-PV branch=%v, first PV move on the other=%v", nullOK, firstOK))
 
 	// arming sites
@@ -167,12 +163,24 @@ func c04Single(c *Ctx, d *driverModel) {
 		for _, b := range fn.Blocks {
 			for i, ins := range b.Instrs {
 				call, ok := ins.(*ssa.Call)
-				if !ok || call.Call.StaticCallee() == nil || call.Call.StaticCallee().String() != "(*sync/atomic.Bool).Store" {
+				if !ok || !d.armsFlag(call) {
 					continue
 				}
-				v, _ := constBoolArg(call.Call.Args[1])
-				if !v || !strings.HasSuffix(pathExpr(call.Call.Args[0]), ".active") {
-					continue
+				if fn != d.process && d.flagOp(call) == "arm" && fn.Pkg == d.process.Pkg && fn.Parent() == nil {
+					// the arming helper itself: judged at its call sites
+					helperCalled := false
+					for _, g := range c.P.AllFuncs {
+						for _, gb := range g.Blocks {
+							for _, gi := range gb.Instrs {
+								if gc, ok := gi.(ssa.CallInstruction); ok && gc.Common().StaticCallee() == fn {
+									helperCalled = true
+								}
+							}
+						}
+					}
+					if helperCalled {
+						continue
+					}
 				}
 				nArm++
 				if fn != d.process || d.armOf(b) != "go" {
@@ -333,9 +341,10 @@ func c04Complete(c *Ctx, d *driverModel) {
 					continue
 				}
 				// argument: Halt(...)#0 ; guard: Halt(...)#1 == nil
-				arg, isEx := call.Common().Args[2].(*ssa.Extract)
+				pvArg := pvArgOf(call.Common())
+				arg, isEx := pvArg.(*ssa.Extract)
 				if !isEx {
-					detail = "completes with " + pathExpr(call.Common().Args[2]) + ", not with the PV returned by Halt"
+					detail = "completes with " + pathExpr(pvArg) + ", not with the PV returned by Halt"
 					continue
 				}
 				haltCall, _ := arg.Tuple.(*ssa.Call)
@@ -578,4 +587,15 @@ func c04Engines(c *Ctx) {
 		}
 		r.Check(good, "R04-engines", "sargon.Hook.Search returns the wrapped search's result unchanged", c.pos(hk.Pos()), "", "")
 	}
+}
+
+// pvArgOf: the principal-variation argument of a completion call (the struct-typed one; ctx is an interface,
+// a search id - if any - an integer).
+func pvArgOf(cc *ssa.CallCommon) ssa.Value {
+	for i := len(cc.Args) - 1; i >= 0; i-- {
+		if _, ok := cc.Args[i].Type().Underlying().(*types.Struct); ok {
+			return cc.Args[i]
+		}
+	}
+	return cc.Args[len(cc.Args)-1]
 }
